@@ -19,6 +19,7 @@
 #include <iostream>      // for cerr
 #include "dfs.h"         // for safe_unsigned_multiply
 #include "exceptions.h"  // for FileIOError
+#include "verif_hooks.h" // for BEEBTOOLS_VERIF_TRACE
 
 namespace DFS
 {
@@ -161,6 +162,8 @@ namespace DFS
 
       if (sector >= total_)
 	{
+	  BEEBTOOLS_VERIF_TRACE("S %lu %u %u %u %lu REFUSED\n", initial_skip_,
+				take_, leave_, total_, sector);
 	  return std::nullopt;
 	}
 
@@ -211,6 +214,8 @@ namespace DFS
 	initial_skip_ +
 	safe_unsigned_multiply(sector / take_, static_cast<unsigned long>(take_) + leave_) +
 	sector % take_;
+      BEEBTOOLS_VERIF_TRACE("S %lu %u %u %u %lu %lu\n", initial_skip_, take_,
+			    leave_, total_, sector, pos);
       return media_.read_block(pos);
     }
 
